@@ -1,6 +1,7 @@
 import NomtModel.Core.Complete
 import NomtModel.Core.TermHasher
 import NomtModel.Store.ProbeInv
+import NomtModel.Store.ConstantsAlloc
 /-!
 # C05 — Every key has a verifying, truthful path proof
 -/
@@ -198,6 +199,17 @@ def exP2 : Table := Probe.run exHash ALLOC_ATTEMPTS (emptyTable 8)
   [.insert 1, .insert 2, .insert 3, .insert 4, .insert 5, .insert 6, .insert 7, .insert 8, .remove 5, .insert 9]
 example : occupied exP2 = 8 ∧ lookup exHash exP2 5 18 = some none ∧ lookup exHash exP2 10 18 = some none
     ∧ lookup exHash exP2 9 18 = some (some 5) ∧ storedPages exP2 = [7, 4, 6, 1, 2, 9, 3, 8] := by decide
+
+/-- T5.5 (constants) the probing model uses the code's numbers: the give-up counter of
+`allocate_bucket`, the tag bits of `full_entry` (`hash >> 57`, 7 bits), and the bound
+`step > 2 * len ⇒ Exhausted` — extracted from `bitbox/mod.rs`, `meta_map.rs` on every run -/
+theorem T5_5_const_probe :
+    ALLOC_ATTEMPTS = Gen.ALLOCATE_BUCKET_ATTEMPTS ∧
+    (∀ h, tagOf h = h / 2 ^ Gen.FULL_ENTRY_SHIFT % Gen.FULL_MASK) ∧
+    (∀ (m : List Slot) (fuel : Nat) (s : PS), s.step > Gen.PROBE_BOUND_FACTOR * m.length →
+      PS.next m (fuel + 1) s = some (.exhausted, s)) ∧
+    Gen.PROBE_BOUND_FACTOR = 2 :=
+  ⟨ConstantsCheck.alloc_attempts, ConstantsCheck.tag_of, ConstantsCheck.probe_bound, ConstantsCheck.probe_constants.1⟩
 
 end Probing
 
